@@ -572,7 +572,12 @@ class Interp(object):
                 self.comp(gens, k + 1, sc, emit)
 
     def e_Lambda(self, e, env):
-        return Opaque('lambda')
+        # a closure: evaluated as a one-statement function whose free names resolve in the defining scope
+        fn = ast.FunctionDef(name='<lambda>', args=e.args, body=[ast.Return(value=e.body, lineno=getattr(e, 'lineno', 0), col_offset=0)], decorator_list=[],
+                             lineno=getattr(e, 'lineno', 0), col_offset=0)
+        f = FuncRef(env.get('__rel__'), fn)
+        f.closure = env
+        return f
 
     def e_Starred(self, e, env):
         raise Unsupported('starred expression')
